@@ -615,7 +615,7 @@ func c02Layout(c *Ctx, r *Report, a *Anchors) {
 					continue
 				}
 				n++
-				r.check("C02.LAYOUT", fmt.Sprintf("%s: %s.%s does not hold a struct layout fact", fnName(fn), o, f), st.Pos(), false,
+				r.flag("C02.LAYOUT", fmt.Sprintf("%s: %s.%s does not hold a struct layout fact", fnName(fn), o, f), st.Pos(),
 					"reflect.StructField."+layout+" of the first Go type seen is cached on the schema node: when one GraphQL type is backed by two Go structs with different layouts, the reflection strategy reads the wrong field of the second one while the other strategies answer correctly")
 			}
 		}
